@@ -2,14 +2,16 @@
     cutoff function (WCut) of one node [x] returns an error or panics ([fplan x w k]).
 
     [C02_C03_binds_parallel_faulted_pass]: such a pass that returns [Ok (s', e)] ([e] nothing -- the
-    fault was not reached -- or the fault's error) satisfies [PassLogPF x s s']:
+    fault was not reached -- or the fault's error) satisfies [PassLogPF x e s s']:
     - [plq_last] (C02 / C11): the LAST run event (function invocation, bind function, cutoff) of the
       current period of necessity of a node that is registered and NOT QUEUED in [s'] -- runs before
       the fault and runs of the rest of the faulting node's height block alike -- reports the
       arguments / result / cutoff decision that [s'] holds, and the node carries the pass's stamp.
       (A node that is queued in [s'] is owed another run: the pass stopped before it, so nothing is
       claimed about its earlier run -- this covers the double run K10/K11 cut short by the fault;
-      Always nodes, which are queued again when the pass ends, fall under the same exclusion.)
+      Always nodes, which are queued again when the pass ends, fall under the same exclusion.
+      If [e] is nothing -- the fault was not reached -- the clause holds for EVERY registered node,
+      Always nodes included.)
     - [plq_triple], [plq_pair] (C03, the exact parallel form): at most two run events of a node
       without an [EvNec] of it in between, and two only in a period of necessity that began in this
       pass.  The faulting recompute itself logs no run event, only [EvFault] / [EvErrH].
@@ -25,9 +27,20 @@ From incr Require Import Base Heap HeapSpec HeapProofs EngineDefs Engine EngineR
 
 Theorem C02_C03_binds_parallel_faulted_pass : forall x w k s s' e,
   Inv s -> ValInvB s -> Tplain s -> par_plan_clean s (fplan x w k) = true ->
-  parStabilize (fplan x w k) s = Ok (s', e) -> rejected e = false -> PassLogPF x s s'.
+  parStabilize (fplan x w k) s = Ok (s', e) -> rejected e = false -> PassLogPF x e s s'.
 Proof. exact parF_log_any. Qed.
 Print Assumptions C02_C03_binds_parallel_faulted_pass.
+
+(** with var writes in the plan besides the one fault: the pass logs exactly the events of the pass
+    under the fault alone, returns the same result, and its nodes differ from that pass's only in
+    value / pending / setAt of written vars; what is queued there is queued here *)
+Theorem C02_C03_binds_parallel_writes_and_fault : forall s p x w k s' e,
+  Inv s -> ValInvB s -> Tplain s -> plan_ok s p = true -> par_plan_clean s p = true -> fo p = fplan x w k ->
+  parStabilize p s = Ok (s', e) -> rejected e = false ->
+  exists t', parStabilize (fplan x w k) s = Ok (t', e) /\ PassLogPF x e s t' /\ log s' = log t' /\
+    (forall m, vps (nd t' m) (nd s' m)) /\ (forall m, inHeap t' m = true -> inHeap s' m = true).
+Proof. exact parM_log. Qed.
+Print Assumptions C02_C03_binds_parallel_writes_and_fault.
 
 (** Non-vacuity: after [exPF_ops], the function of node 4 panics in a parallel pass: the bind 2 ran
     before ([EvBindFn 2 3 (Some 7)]), is not queued and carries the stamp; node 4 is queued, stamp 0 *)
